@@ -175,12 +175,12 @@ struct AliasSys {
 
 
 // ---- ReusableManager: logical clear keeps capacity, accessors survive re-creation, converged workloads take no new memory ----
-enum { M_RUN_W1, M_RUN_W2, M_RUN_W3, M_CLEAR, M_NUM };
-static const char* mnames[] = {"workload(1 x 5 chars)", "workload(3 x 20 chars)", "workload(6 x 50 chars)", "manager.clear()"};
+enum { M_RUN_W1, M_RUN_W2, M_RUN_W3, M_RUN_W4, M_CLEAR, M_NUM };
+static const char* mnames[] = {"workload(1 x 5 chars)", "workload(3 x 20 chars)", "workload(6 x 50 chars)", "workload(5,5,60 chars)", "manager.clear()"};
 template <int INTERVAL>
 struct ManagerSys {
   babylon::SwissManager mgr; babylon::ReusableAccessor<SwissVector<SwissString>> av; babylon::ReusableAccessor<SwissString> as;
-  bool dirty = false; bool seen[3] = {false, false, false}; size_t capv = 0, caps = 0; int cycles = 0;
+  bool dirty = false; size_t idx_len[6] = {0, 0, 0, 0, 0, 0}; size_t str_len = 0; size_t capv = 0, caps = 0; int cycles = 0;   // idx_len[i]: longest string element i ever held
   static std::string name() { return "ReusableManager recreate_interval=" + std::to_string(INTERVAL); }
   static int num_ops() { return M_NUM; }
   static std::string op_name(int op) { return mnames[op]; }
@@ -198,25 +198,29 @@ struct ManagerSys {
       if (av->capacity() < capv || as->capacity() < caps) return "manager.clear() shrank retained capacity (vector " + std::to_string(capv) + "->" + std::to_string(av->capacity()) + ", string " + std::to_string(caps) + "->" + std::to_string(as->capacity()) + ")";
       return "";
     }
-    static const int cnt[3] = {1, 3, 6}; static const int len[3] = {5, 20, 50};
+    static const int cnt[4] = {1, 3, 6, 3}; static const int lens[4][6] = {{5}, {20, 20, 20}, {50, 50, 50, 50, 50, 50}, {5, 5, 60}};
     int k = op - M_RUN_W1;
-    bool fits = false; for (int j = k; j < 3; j++) if (seen[j]) fits = true;
-    size_t before = mgr.resource().space_allocated();
-    for (int i = 0; i < cnt[k]; i++) av->emplace_back(std::string((size_t)len[k], (char)('a' + i)));
-    as->assign(std::string((size_t)len[k] * 2, 'z'));
-    size_t after = mgr.resource().space_allocated();
-    dirty = true; seen[k] = true;
+    // everything an element (or the string) ever held must still fit without new memory: clearing and re-creation keep capacity
+    bool fits = (size_t)lens[k][0] * 2 <= str_len; for (int i = 0; i < cnt[k]; i++) if ((size_t)lens[k][i] > idx_len[i]) fits = false;
+    size_t before = mgr.resource().space_used();   // bytes handed out (space_allocated() is page granular and would hide small allocations)
+    for (int i = 0; i < cnt[k]; i++) av->emplace_back(std::string((size_t)lens[k][i], (char)('a' + i)));
+    as->assign(std::string((size_t)lens[k][0] * 2, 'z'));
+    size_t after = mgr.resource().space_used();
+    dirty = true;
     if ((int)av->size() != cnt[k]) return "workload result has the wrong size";
-    for (int i = 0; i < cnt[k]; i++) if (std::string((*av)[i].data(), (*av)[i].size()) != std::string((size_t)len[k], (char)('a' + i))) return "workload result has wrong contents";
-    if (std::string(as->data(), as->size()) != std::string((size_t)len[k] * 2, 'z')) return "string workload result has wrong contents";
-    if (fits && after != before) return "a workload that already fitted (capacity converged) took " + std::to_string(after - before) + " new bytes from the resource";
+    for (int i = 0; i < cnt[k]; i++) if (std::string((*av)[i].data(), (*av)[i].size()) != std::string((size_t)lens[k][i], (char)('a' + i))) return "workload result has wrong contents";
+    if (std::string(as->data(), as->size()) != std::string((size_t)lens[k][0] * 2, 'z')) return "string workload result has wrong contents";
+    if (fits && after != before) return "a workload whose every element already fitted where it is written again (capacity retained) took " + std::to_string(after - before) + " new bytes from the resource";
+    for (int i = 0; i < cnt[k]; i++) if ((size_t)lens[k][i] > idx_len[i]) idx_len[i] = (size_t)lens[k][i];
+    if ((size_t)lens[k][0] * 2 > str_len) str_len = (size_t)lens[k][0] * 2;
     // what has to be retained is room for everything the object ever held (growth slack may be compacted away on re-creation)
     if (av->size() > capv) capv = av->size(); if (as->size() > caps) caps = as->size();
     return "";
   }
   std::string check() { return ""; }
   std::string canon() {
-    return "ct=" + std::to_string(mgr._clear_times) + " dirty=" + std::to_string(dirty) + " seen=" + std::to_string(seen[0]) + std::to_string(seen[1]) + std::to_string(seen[2]) + " v=" + std::to_string(av->size()) + "/" + std::to_string(av->constructed_size()) + "/" + std::to_string(av->capacity()) +
+    std::string il; for (int i = 0; i < 6; i++) il += std::to_string(idx_len[i]) + ",";
+    return "ct=" + std::to_string(mgr._clear_times) + " dirty=" + std::to_string(dirty) + " held=" + il + std::to_string(str_len) + " v=" + std::to_string(av->size()) + "/" + std::to_string(av->constructed_size()) + "/" + std::to_string(av->capacity()) +
            " s=" + std::to_string(as->size()) + "/" + std::to_string(as->capacity()) + " cyc=" + std::to_string(cycles);
   }
 };
